@@ -15,6 +15,22 @@ def _run(pid, prop, tier, seed, coop_cases, free_cases, rule, assumptions):
     res = vlib.run_resumable(cbin, ["--prop", prop, "--mode", "coop", "--seed", str(seed), "--cases", str(coop_cases)], nsh,
                              timeout=300 if tier == "quick" else 7200, work=work, tag="c")
     counters, distinct, samples, stats = vlib.collect_runs(v, res)
+    # systematic: every schedule with at most `preempt` preemptions, depth-first by prefix replay, per scenario / shape; the counters say
+    # for which of them the tree was exhausted and for which it was cut at the budget
+    pre = 2 if tier == "quick" else 3
+    resd = vlib.run_resumable(cbin, ["--prop", prop, "--mode", "dfs", "--seed", str(seed), "--cases", str(6000 if tier == "quick" else 1500000), "--preempt", str(pre)], 15 if pid == "C12" else 8,
+                              timeout=400 if tier == "quick" else 7200, work=work, tag="d")
+    cd, dd, sd, std_ = vlib.collect_runs(v, resd)
+    distinct |= dd
+    sysc = cd.get("counts", {})
+    stats["systematic"] = dict(preemption_bound=pre, schedules=int(cd.get("evaluations", 0)) if pid == "C12" else int(sum(val for k, val in sysc.items() if k.startswith("systematic_schedules_"))),
+                               exhausted=sorted(k[len("systematic_tree_exhausted_"):] for k in sysc if k.startswith("systematic_tree_exhausted_")),
+                               cut_at_budget=sorted(k[len("systematic_tree_cut_at_budget_"):] for k in sysc if k.startswith("systematic_tree_cut_at_budget_")),
+                               runs_that_did_not_repeat_their_prefix=int(sysc.get("systematic_runs_that_did_not_repeat_their_prefix", 0)), **std_)
+    if stats["systematic"]["runs_that_did_not_repeat_their_prefix"]:
+        v.add_inconclusive("systematic mode: a run did not repeat its prefix of choices (the scenario is not deterministic)")
+    if not stats["systematic"]["exhausted"] and not stats["systematic"]["cut_at_budget"]:
+        v.add_inconclusive("systematic mode observed nothing")
     tbin = vlib.build_harness("coopmain", "tsan", opt="-O1")
     # free-running threads: fewer processes than cores so that threads really run in parallel
     nfree = max(2, vlib.NCPU // 3)
@@ -41,10 +57,10 @@ def _run(pid, prop, tier, seed, coop_cases, free_cases, rule, assumptions):
 def run_c12(tier, seed, replay=None):
     return _run("C12", "c12", tier, seed, 1500 if tier == "quick" else 150000, 6000 if tier == "quick" else 600000,
                 "14 scenarios (resolve|then, reject|then, resolve(parent)|then(derived), ...|then(derived).then, inner promise settled by a third thread, reject(parent)|then(derived) with rethrow, two attachers, void promise, and one per continuation specialisation that settles a derived promise: void parent with value-returning continuation, void parent with promise-returning continuation, inner promise already fulfilled, rejection of a void parent, inner promise rejected by a third thread, and a promise with 2 or 4 continuations attached beforehand that gets one more while it is being fulfilled) x seeded schedules of the cooperative scheduler (uniform random walk and PCT with 1-3 change points) switching at the async.h hooks and at modelled lock acquire/release; per-continuation counters and values judged at the end of every schedule; plus free-running rounds under ThreadSanitizer with random spins at the hooks. distinct = distinct (scenario, schedule trace) hashes",
-                ["schedules are sampled, not enumerated; the scheduler only switches at hooks (sequentially consistent interleavings of hooked steps)",
+                ["schedules are sampled; in addition every schedule with at most 2 (thorough: 3) preemptions is enumerated per scenario where the budget allows (evidence: systematic.exhausted / cut_at_budget); the scheduler only switches at hooks (sequentially consistent interleavings of hooked steps)",
                  "TSan reports without a Pistache frame are not judged"])
 
 def run_c13(tier, seed, replay=None):
     return _run("C13", "c13", tier, seed, 3000 if tier == "quick" else 150000, 12000 if tier == "quick" else 600000,
                 "1-3 producers x 1-3 pushes against the framework's consumer pattern (sleep until the eventfd is readable, then popSafe() until empty), scheduled by the cooperative scheduler at the mailbox.h hooks (exchange, link store, tail read, eventfd write/read); unique item ids give loss/duplication/order; the wake-up predicate (queue non-empty, eventfd not readable, consumer idle, producers done) is evaluated when the consumer goes idle; plus free-running rounds under ThreadSanitizer. distinct = distinct (shape, schedule trace) hashes",
-                ["schedules are sampled, not enumerated", "epoll_wait is modelled as 'sleep until poll() says readable'"])
+                ["schedules are sampled; in addition every schedule with at most 2 (thorough: 3) preemptions is enumerated per shape where the budget allows (evidence: systematic.exhausted / cut_at_budget)", "epoll_wait is modelled as 'sleep until poll() says readable'"])
